@@ -31,7 +31,10 @@ LEVEL_TEXT = (
     "plus addresses of ECUs never recorded), selected by ECU name (always when the file holds several recordings), by integer/null "
     "properties, by string properties or both; family 'update': one ECU (one name, one url) recorded with two software generations (two runs whose properties_pre differ in "
     "sw_version, in the nullable variant or in both, same state machine, other reply bytes, recorded in either order), optionally next to another ECU that carries the property "
-    "set of one of the two runs, each run replayed with name AND properties (and with the properties alone when no other ECU carries them; never with the name alone). Held = every replay produced the recorded bytes (silence where none was recorded) and the "
+    "set of one of the two runs, each run replayed with name AND properties (and with the properties alone when no other ECU carries them; never with the name alone). "
+    "ECU names (any text is a name): per file either plain distinct names or names that are easily taken for one another - differing only in letter case, equal except where one has '_' "
+    "for one character of the other, or '%' for a run of characters (possibly none) of the other - assigned to the ECUs in random order, so that the ECU replayed by such a name "
+    "was recorded before, after or interleaved with the other ECU, which answers the same requests with other bytes. Held = every replay produced the recorded bytes (silence where none was recorded) and the "
     "same session/security level after every step."
 )
 LEVEL_NOTE = (
@@ -39,7 +42,7 @@ LEVEL_NOTE = (
     "RandomUDSServer are not reproducible (unseeded RNG); witnesses carry the recorded bytes."
 )
 RULE = (
-    "cases = (ECU model or script [software generation], history seed, database layout, selector); one case = one record/replay pair; non-trivial = the recording "
+    "cases = (ECU model or script [software generation], history seed, database layout incl. the class of ECU names, selector); one case = one record/replay pair; non-trivial = the recording "
     "leaves the default state or repeats a request with another answer; distinct = distinct (history seed, layout, selector); "
     "distinct_traces = distinct (request kind, reply kind, client state) sequences; evaluations = replayed steps compared. After the first "
     "difference of a pair the rest of that replay is not judged (it is a consequence). A replay difference under selection by name is keyed replay/wrong-recording-selected/... "
@@ -52,6 +55,7 @@ ASSUMPTIONS = [
     "family 'update': the two runs of one ECU name answer differently (software generation) and differ in properties_pre; such a run is only replayed with a selector that singles it out: "
     "name AND properties, or the properties alone if no other ECU of the file carries them (ECU name 'or' properties in the statement is read inclusively: commands/script/vecu.py takes both options "
     "at once); the name alone is not used there, and another ECU of that file is replayed by name, by name AND properties, and by properties alone only if they are its own",
+    "an ECU name selects the ECU whose ecu.name is exactly that text (same characters, same case); '_' and '%' in a name are ordinary characters",
     "ecu rows and address.ecu are written by the harness with SQL (gallia has no writer for them); properties_pre is written by DBHandler.insert_scan_run_properties_pre",
     "address rows that exist before a recording starts come from gallia's own writers: DBHandler.insert_discovery_result of a discovery run in the same file, or an earlier recording of the same url",
     "every await on DBHandler / DBUDSServer has a 60 s wall-clock guard (such a step takes milliseconds). A DBHandler step of a recording that raises or does not return is reported as a "
@@ -114,6 +118,11 @@ def required_reach(tier: str) -> dict[str, int]:
         "replay-by-int-properties.other-run-of-the-ecu-has-other-properties.and-answers-differently": 30 * k,
         "replay-by-name+properties.neither-option-alone-selects-the-run": 8 * k,
         "replay-by-name+properties.other-ecu-has-the-same-properties.and-answers-differently": 10 * k,
+        # ECUs of one file whose names are easily taken for one another (letter case, '_' / '%' in the selected name), replayed by the name that could stand for the other
+        **{f"db.several-ecus.ecu-names.{c}": 6 * k for c in ("plain", "case", "underscore", "percent")},
+        **{f"replay-by-name.other-ecu-name.{r}{sfx}": n * k
+           for r in ("differs-only-in-case", "equal-but-for-underscores", "equal-but-for-percent-signs")
+           for sfx, n in (("", 8), (".and-answers-differently", 6), (".and-answers-differently.and-was-recorded-first-or-interleaved", 4))},
         "scripted.fallback": 10 * k, "scripted.malformed-reply": 10 * k, "scripted.mismatching-reply": 10 * k, "#model:": 40,
     }
 
@@ -585,6 +594,73 @@ def answered_otherwise(rec: Recording, other: Recording) -> int:
     return n
 
 
+# ---- ECU names --------------------------------------------------------------------------------------------
+# A name is any text the user put into ecu.name.  Besides the plain names the files carry names that are easily taken for one another:
+# names that differ only in the case of their letters, names that are equal except where one of them has '_' (or has '%' where
+# the other has some run of characters, possibly none).  The relations below only describe the names of a file (reach counters);
+# the verdict is the byte comparison of the replay.
+NAME_CLASSES = ["plain", "plain", "case", "underscore", "percent"]
+_FILL = "0123456789ABCDEFGHKXYZabcdefxyz-."
+
+
+def ecu_names(rng: random.Random, cls: str, n: int, tag: int) -> list[str]:
+    """n distinct ECU names of one class (n <= 3), in random order"""
+    stem = rng.choice(["ECU", "Gateway", "bcm", "Engine", "Door", "tcu"])
+    if cls == "case":
+        s = f"{stem}-{rng.choice(['front', 'Rear', 'a', 'Left'])}-{tag}"
+        out = [s.lower(), s.upper(), s.title()]
+        mixed = "".join(c.upper() if rng.random() < 0.5 else c.lower() for c in s)
+        if mixed not in out and rng.random() < 0.5:
+            out[rng.randrange(3)] = mixed
+    elif cls == "underscore":
+        c1, c2 = rng.choice(_FILL), rng.choice(_FILL)
+        tail = rng.choice(["", "F", "-left"])
+        out = [f"{stem}_{tag}_{tail}", f"{stem}{c1}{tag}_{tail}", f"{stem}{c1}{tag}{c2}{tail}"]
+        if rng.random() < 0.3:
+            out[1] = f"{stem}_{tag}{c2}{tail}"
+    elif cls == "percent":
+        w1 = rng.choice(["-front", "11", " (old)", rng.choice(_FILL)])
+        w2 = rng.choice(["", "", "-rear-", "x", rng.choice(_FILL) * 2])
+        if rng.random() < 0.5:
+            out = [f"{stem}%{tag}", f"{stem}{w1}%{tag}", f"{stem}{w1}{w2}{tag}"]
+        else:
+            out = [f"{tag}-{stem}%", f"{tag}-{stem}{w1}%", f"{tag}-{stem}{w1}{w2}"]
+    else:
+        out = [f"ECU-{k}-{tag}" for k in range(3)]
+    assert len(set(out)) == 3, out
+    out = out[:n] if cls == "plain" else rng.sample(out, 3)[:n]
+    return out
+
+
+def differs_only_in_case(a: str, b: str) -> bool:
+    return a != b and a.lower() == b.lower()
+
+
+def equal_but_for_underscores(a: str, b: str) -> bool:
+    """b is a with every '_' of a replaced by one character (at least one of them by another character)"""
+    return a != b and len(a) == len(b) and all(x == y or x == "_" for x, y in zip(a, b))
+
+
+def equal_but_for_percent_signs(a: str, b: str) -> bool:
+    """b is a with every '%' of a replaced by some run of characters (possibly none)"""
+    if a == b or "%" not in a:
+        return False
+    parts = a.split("%")
+    if not b.startswith(parts[0]):
+        return False
+    pos = len(parts[0])
+    for mid in parts[1:-1]:
+        k = b.find(mid, pos)
+        if k < 0:
+            return False
+        pos = k + len(mid)
+    return len(b) - pos >= len(parts[-1]) and b.endswith(parts[-1])
+
+
+NAME_RELATIONS = [("differs-only-in-case", differs_only_in_case), ("equal-but-for-underscores", equal_but_for_underscores),
+                  ("equal-but-for-percent-signs", equal_but_for_percent_signs)]
+
+
 # ---- one database ---------------------------------------------------------------------------------------
 async def one_database(ctx: Any, family: str, hseed: str, path: Path, catch: dh.Catcher) -> None:
     rng = random.Random(hseed + "/layout")
@@ -600,6 +676,11 @@ async def one_database(ctx: Any, family: str, hseed: str, path: Path, catch: dh.
     gens = rng.sample([0, 1, 2, 3], 3) if update else []  # software generations (up- or downgrade; the third is another ECU)
     differs = rng.choice(["sw_version", "variant", "both"]) if update else None  # what the update changed in the property set
     shares_with = rng.randrange(2) if update and nrec == 3 and rng.random() < 0.6 else None  # the other ECU has the property set of this run
+    # third layout stream: the names the ECUs of this file carry (own generator: the layouts drawn above stay what they were)
+    rng3 = random.Random(hseed + "/names")
+    ecu_ids = sorted({0 if same_ecu or (update and j < 2) else j for j in range(nrec)})
+    name_class = rng3.choice(NAME_CLASSES)
+    names = dict(zip(ecu_ids, ecu_names(rng3, name_class, len(ecu_ids), zlib.crc32(hseed.encode()) % 1000)))
     for j in range(nrec):
         if update:
             # the same state machine (answers are a function of session, level, request and software generation)
@@ -628,7 +709,7 @@ async def one_database(ctx: Any, family: str, hseed: str, path: Path, catch: dh.
                 props["variant"] = 1
         if update and j == 2 and shares_with is not None:
             props["sw_version"], props["variant"] = recs[shares_with].props["sw_version"], recs[shares_with].props["variant"]
-        rec = Recording(f"ECU-{jj}-{zlib.crc32(hseed.encode()) % 1000}", f"vf://c12/{hseed}/{jj}", props, model_id)
+        rec = Recording(names[jj], f"vf://c12/{hseed}/{jj}", props, model_id)
         recs.append(rec)
         length = rng.choice([5, 8, 60, rng.randint(5, 60), rng.randint(5, 60), rng.randint(20, 60)])
         if same_ecu or update:
@@ -744,6 +825,10 @@ async def one_database(ctx: Any, family: str, hseed: str, path: Path, catch: dh.
         if any(len({tuple(r.replies[i] for i, q in enumerate(r.requests) if q == c)[:1] for r in recs}) > 1 for c in common):
             ctx.reach("db.other-recording-shares-requests")
     ctx.reach(f"family.{family}")
+    ctx.reach(f"db.ecu-names.{name_class}")
+    if len(ecu_ids) > 1:
+        ctx.reach(f"db.several-ecus.ecu-names.{name_class}")
+    recorded_at = {id(r.rec): n for n, r in enumerate(recorders)}
     for j, rec in enumerate(recs):
         if rec.failed is not None or rec.scan_run is None:
             ctx.reach("recordings.refused-by-the-database-handler")
@@ -759,7 +844,8 @@ async def one_database(ctx: Any, family: str, hseed: str, path: Path, catch: dh.
             if family == "scripted" and k == "mismatching-reply":
                 ctx.reach("scripted.mismatching-reply")
         case = {"family": family, "hseed": hseed, "recordings": nrec, "interleaved": interleaved, "same_ecu_twice": same_ecu, "discovery_run_first": discovery,
-                "recording": j, "model": rec.model_id, "length": len(rec.requests), "nontrivial": nontrivial}
+                "recording": j, "model": rec.model_id, "length": len(rec.requests), "nontrivial": nontrivial,
+                "ecu_names_in_file": sorted({o.name for o in recs})}
         if update:
             case.update({"software_update": True, "update_changed_properties": differs, "other_ecu_has_properties_of_recording": shares_with,
                          "recorded_in_order": [recs.index(r.rec) for r in recorders]})
@@ -801,6 +887,20 @@ async def one_database(ctx: Any, family: str, hseed: str, path: Path, catch: dh.
                 ctx.reach("replay-by-name.same-url-recorded-before")
             elif rec.address_before["ecu_label"] is not None:
                 ctx.reach("replay-by-name.address-from-discovery-run-labelled-up-front")
+        for o in recs:
+            # other ECUs of the file whose name is easily taken for this one's (and which the selection by this name must keep out all the same)
+            if not by_name or o.name == rec.name or o.failed is not None or o.scan_run is None:
+                continue
+            if "name" not in by_name and int_props(o) != int_props(rec):
+                continue  # replayed with name AND properties only, and the properties alone already tell the two apart
+            for rel, related in NAME_RELATIONS:
+                if not related(rec.name, o.name):
+                    continue
+                ctx.reach(f"replay-by-name.other-ecu-name.{rel}")
+                if answered_otherwise(rec, o):
+                    ctx.reach(f"replay-by-name.other-ecu-name.{rel}.and-answers-differently")
+                    if interleaved or recorded_at[id(o)] < recorded_at[id(rec)]:
+                        ctx.reach(f"replay-by-name.other-ecu-name.{rel}.and-answers-differently.and-was-recorded-first-or-interleaved")
         for sel, _, _ in selectors:
             name = rec.name if sel in ("name", "name+properties") else None
             props: dict[str, Any] | None = None
